@@ -160,7 +160,9 @@ def get_func(frame: FrameType) -> Optional[Callable[..., Any]]:
     # try looking at classes in global scope.
     if func is None:
         for v in frame.f_globals.values():
-            if not isinstance(v, type):
+            # type(v), not isinstance(v, type): isinstance would read v.__class__
+            # and run the hooks of lazy or proxy objects living in module globals
+            if not issubclass(type(v), type):
                 continue
             func = get_func_in_mro(v, code)
             if func is not None:
